@@ -481,7 +481,8 @@ class XPathContext:
 
         :param axis: the context axis, default is 'following-sibling'.
         """
-        if isinstance(self.item, XPathNode):
+        if isinstance(self.item, XPathNode) and \
+                not isinstance(self.item, (AttributeNode, NamespaceNode)):
             if self.document is not None or self.item is not self.root:
                 item = self.item
 
